@@ -201,28 +201,74 @@ func (c *c01GNMIClient) Subscribe(ctx context.Context, opts ...grpc.CallOption) 
 
 type c01ClientStream struct {
 	grpc.ClientStream
-	srv   *subscribe.Server
-	resps []*gnmipb.SubscribeResponse
-	pos   int
-	err   error
+	srv     *subscribe.Server
+	started bool
+	reqs    chan *gnmipb.SubscribeRequest  // client -> server
+	resps   chan *gnmipb.SubscribeResponse // server -> client
+	done    chan error                     // the server's Subscribe returned
+	err     error
+	ended   bool
+}
+
+// c01ServerSide is the server's end of the in-process stream.
+type c01ServerSide struct {
+	grpc.ServerStream
+	cs *c01ClientStream
+}
+
+func (s *c01ServerSide) Context() context.Context { return context.Background() }
+func (s *c01ServerSide) Send(r *gnmipb.SubscribeResponse) error {
+	s.cs.resps <- r
+	return nil
+}
+func (s *c01ServerSide) Recv() (*gnmipb.SubscribeRequest, error) {
+	r, ok := <-s.cs.reqs
+	if !ok {
+		return nil, io.EOF
+	}
+	return r, nil
 }
 
 func (s *c01ClientStream) Send(r *gnmipb.SubscribeRequest) error {
-	st := &c01Stream{req: r}
-	s.err = s.srv.Subscribe(st)
-	s.resps = st.sent
+	if !s.started {
+		s.started = true
+		s.reqs = make(chan *gnmipb.SubscribeRequest, 8)
+		s.resps = make(chan *gnmipb.SubscribeResponse, 64)
+		s.done = make(chan error, 1)
+		go func() { s.done <- s.srv.Subscribe(&c01ServerSide{cs: s}) }()
+	}
+	s.reqs <- r
 	return nil
 }
 
 func (s *c01ClientStream) Recv() (*gnmipb.SubscribeResponse, error) {
-	if s.pos < len(s.resps) {
-		s.pos++
-		return s.resps[s.pos-1], nil
+	if s.ended {
+		if s.err != nil {
+			return nil, s.err
+		}
+		return nil, io.EOF
 	}
-	if s.err != nil {
-		return nil, s.err
+	select {
+	case r := <-s.resps:
+		return r, nil
+	case err := <-s.done:
+		// the server ended the RPC: hand over what it had sent before
+		select {
+		case r := <-s.resps:
+			s.done <- err
+			return r, nil
+		default:
+		}
+		s.ended, s.err = true, err
+		return s.Recv()
 	}
-	return nil, io.EOF
+}
+
+func (s *c01ClientStream) CloseSend() error {
+	if s.started {
+		close(s.reqs)
+	}
+	return nil
 }
 
 func Stub_gnmi_NewGNMIClient(cc grpc.ClientConnInterface) gnmipb.GNMIClient {
@@ -250,6 +296,11 @@ func c01ClientView(h *zz.H, target string) (client.Leaves, error) {
 // c01PathOf builds a path in one of the encodings a target may use and returns it with the
 // element strings it denotes.
 func c01PathOf(h *zz.H, name string, minForm int) (*gnmipb.Path, []string) {
+	if h.Param("SIMPLE", 0) == 1 { // one structured element (the long-lived-client run: encodings are the other run's subject)
+		a := h.Atom(name + "_name")
+		h.Assume(a != "*")
+		return &gnmipb.Path{Elem: []*gnmipb.PathElem{{Name: a}}}, []string{a}
+	}
 	switch h.Range(name+"_form", minForm, 3) {
 	case 0:
 		return nil, nil
@@ -312,6 +363,37 @@ func c01Value(h *zz.H) (*gnmipb.TypedValue, func(interface{}) bool) {
 			s, ok1 := x[0].(string)
 			i, ok2 := x[1].(int64)
 			return ok1 && ok2 && s == a && i == b
+		}
+	}
+}
+
+// c01Value2 draws a second value of the same kind as v that differs from it.
+func c01Value2(h *zz.H, v *gnmipb.TypedValue) (*gnmipb.TypedValue, func(interface{}) bool) {
+	switch x := v.Value.(type) {
+	case *gnmipb.TypedValue_IntVal:
+		n := h.Int64("int2")
+		h.Assume(n != x.IntVal)
+		return &gnmipb.TypedValue{Value: &gnmipb.TypedValue_IntVal{IntVal: n}}, func(g interface{}) bool { y, ok := g.(int64); return ok && y == n }
+	case *gnmipb.TypedValue_StringVal:
+		n := h.Atom("str2")
+		h.Assume(n != x.StringVal)
+		return &gnmipb.TypedValue{Value: &gnmipb.TypedValue_StringVal{StringVal: n}}, func(g interface{}) bool { y, ok := g.(string); return ok && y == n }
+	case *gnmipb.TypedValue_BoolVal:
+		n := !x.BoolVal
+		return &gnmipb.TypedValue{Value: &gnmipb.TypedValue_BoolVal{BoolVal: n}}, func(g interface{}) bool { y, ok := g.(bool); return ok && y == n }
+	case *gnmipb.TypedValue_UintVal:
+		n := h.Uint64("uint2")
+		h.Assume(n != x.UintVal)
+		return &gnmipb.TypedValue{Value: &gnmipb.TypedValue_UintVal{UintVal: n}}, func(g interface{}) bool { y, ok := g.(uint64); return ok && y == n }
+	default:
+		n := h.Int64("ll2")
+		return &gnmipb.TypedValue{Value: &gnmipb.TypedValue_LeaflistVal{LeaflistVal: &gnmipb.ScalarArray{Element: []*gnmipb.TypedValue{{Value: &gnmipb.TypedValue_IntVal{IntVal: n}}}}}}, func(g interface{}) bool {
+			y, ok := g.([]interface{})
+			if !ok || len(y) != 1 {
+				return false
+			}
+			i, ok := y[0].(int64)
+			return ok && i == n
 		}
 	}
 }
@@ -404,6 +486,29 @@ func VerifC01_Pipeline(h *zz.H) {
 	c01Mgr.Update("t1", &gnmipb.Notification{Timestamp: 30, Prefix: prefix, Update: []*gnmipb.Update{{Path: upath, Val: val}}})
 	got, _ = c01ClientView(h, "t1")
 	h.Assert(len(got) == 1, "C01: a leaf streamed again after its delete is visible again")
+	if h.Param("POLL", 0) == 1 {
+		// a long-lived client (POLL): it holds the leaf, the target then rewrites it with a new
+		// value - at a newer or at the SAME timestamp (the cache accepts a different value at an
+		// equal timestamp) - and the client polls again: its view follows the target
+		pc := client.New()
+		err := pc.Subscribe(context.Background(), client.Query{Addrs: []string{"collector"}, Target: "t1", Type: client.Poll, Queries: []client.Path{{"*"}}}, "pipe")
+		h.Assert(err == nil, "C01: a POLL client can subscribe through the collector")
+		val2, sameVal2 := c01Value2(h, val)
+		ts2 := int64(30 + h.Range("rewrite_ts_advance", 0, 1))
+		c01Mgr.Update("t1", &gnmipb.Notification{Timestamp: ts2, Prefix: prefix, Update: []*gnmipb.Update{{Path: upath, Val: val2}}})
+		h.Assert(pc.Poll() == nil, "C01: a poll trigger is answered")
+		var pgot client.Leaves
+		for _, l := range pc.Leaves() {
+			if len(l.Path) >= 2 && l.Path[1] == "meta" {
+				continue
+			}
+			pgot = append(pgot, l)
+		}
+		h.Assert(len(pgot) == 1 && c01SamePath(pgot[0].Path, want), "C01: a long-lived client still sees exactly the target's leaf")
+		if len(pgot) == 1 {
+			h.Assert(sameVal2(pgot[0].Val), "C01: once the streams quiesce a long-lived client's view shows the target's final value (no stale leaf)")
+		}
+	}
 	c01Mgr.Reset("t1")
 	got, _ = c01ClientView(h, "t1")
 	h.Assert(len(got) == 0, "C01: after the session ends the target's leaves are gone from the client's view")
